@@ -1,4 +1,24 @@
 TEXTS = {
+    "C08": {
+        "text": "Machine-checked Lean 4 theorem C08_holds: if the registry decides liveness from the termination latch "
+                "itself and already_running maps the entry through `running` (WellWired08: both facts are re-extracted "
+                "from src/actor/service.rs and src/addr.rs on every run and re-proved by decide), then every run of "
+                "the registry model (Model/Registry.lean) - any number of tasks, service types and instances; "
+                "from_registry, setup, register, replace, unregister, try_from_registry, already_running begun, "
+                "taking effect and returning in any interleaving with instance terminations - is accepted by monC08: "
+                "each operation takes effect exactly once between its begin and its return, the effects in order "
+                "are a legal history of the sequential specification Spec08 (a function type -> optional instance), "
+                "and each return value is the one the specification computed at the effect point, i.e. the history "
+                "is linearizable. Spec08 is shown to say what the property says (spec_lookup, spec_spawn_iff, "
+                "spec_register, spec_register_ok, spec_already_running). The model is tied to the code by a "
+                "linearizability search on real concurrent histories: the acceptor inserts the effect points, with "
+                "the default-instance spawn observed directly.",
+        "design_ref": "DESIGN.md §5 C08",
+        "note": "Trusted: Lean kernel + axioms; Model/Registry.lean validated by acceptance of real histories "
+                "(1-4 tasks, 1-2 service types, stop / halt / self-termination in between); extractor facts "
+                "livenessQuery and alreadyRunningPolarity.",
+        "technique": "Lean 4 proof (refinement of the registry model to a sequential specification) + regenerated wiring + linearizability check of real histories against the model",
+    },
     "C05": {
         "text": "Machine-checked Lean 4 theorem C05_holds: for every wiring in which the strong handle kinds own both "
                 "channel closures and the weak kinds own nothing and must upgrade (WellWired05, re-proved by decide "
@@ -205,5 +225,5 @@ TEXTS = {
 _PENDING = "check under construction in this round: model + theorem not yet wired into ./check (see DESIGN.md build order); not claimed until its three obligations run end to end"
 NOT_APPLICABLE = [
     {"property_id": p, "reason": _PENDING}
-    for p in ["C01", "C02", "C06", "C08", "C09", "C16"]
+    for p in ["C01", "C02", "C06", "C09", "C16"]
 ]
